@@ -298,6 +298,10 @@ static void sweep_row(const Row& row, bool thorough, Sink& out) {
           out.put(row, m, "nm", std::string("size-") + (up ? "up" : "down") + ":op" + std::to_string(j), var, 0);
         }
       }
+      if (cix == 0 && !b0.ops.empty()) {          // the request without any operand (a form only for rows whose operands are all implicit)
+        Inst m = b0; m.ops.clear();
+        out.put(row, m, "nm", "no-operands", var, 0);
+      }
       if (b0.ops.size() >= 2) {
         Inst m = b0; std::swap(m.ops[0], m.ops[1]);
         const Opd &p = b0.ops[0], &q = b0.ops[1];
